@@ -72,19 +72,27 @@ func (r *Eval) run(ctx context.Context) (ret Object, err error) {
 	// Always check whether context is done before running VM because
 	// parser and compiler may take longer than expected or context may be
 	// canceled for any reason before run, so use two selects.
+	verifPoint(vpEvalSelect1, r.VM)
 	select {
 	case <-ctx.Done():
 		r.VM.Abort()
 		err = ctx.Err()
 	default:
+		verifPoint(vpEvalBeforeGo, r.VM)
 		go func() {
+			verifPoint(vpEvalGoStart, r.VM)
+			defer verifPoint(vpEvalGoEnd, r.VM)
 			defer close(doneCh)
+			defer verifPoint(vpEvalGoClosing, r.VM)
 			ret, err = r.VM.Run(r.Globals, r.Locals...)
 		}()
 
+		verifPoint(vpEvalSelect2, r.VM)
 		select {
 		case <-ctx.Done():
+			verifPoint(vpEvalCancelSeen, r.VM)
 			r.VM.Abort()
+			verifPoint(vpEvalWaitDone, r.VM)
 			<-doneCh
 			if err == nil {
 				err = ctx.Err()
@@ -92,6 +100,7 @@ func (r *Eval) run(ctx context.Context) (ret Object, err error) {
 		case <-doneCh:
 		}
 	}
+	verifPoint(vpEvalReturn, r.VM)
 	return
 }
 
